@@ -158,11 +158,7 @@ func vdrainWrites[K comparable, V any](s *Store[K, V]) int {
 		select {
 		case it := <-s.writeChan:
 			s.policyMu.Lock()
-			if it.code == WAIT {
-				if it.done != nil {
-					close(it.done)
-				}
-			} else {
+			if it.code != WAIT {
 				s.sinkWrite(it)
 			}
 			s.policyMu.Unlock()
@@ -180,3 +176,6 @@ func vtick[K comparable, V any](s *Store[K, V]) {
 	s.timerwheel.advance(0, s.removeEntry)
 	s.policyMu.Unlock()
 }
+
+// clockOff returns to the wall clock (tests that use real goroutines and timers)
+func clockOff() { clock.VerifNow.Store(nil) }
